@@ -91,6 +91,9 @@ struct Scenario {
     ext_every: Option<usize>,
     #[serde(default)]
     max_cor: Option<usize>,
+    /// register the looked-up outputs as public inputs (default: yes, except on narrow rows)
+    #[serde(default)]
+    pis: Option<bool>,
 }
 
 fn knobs_for(strategy: &str, nch: usize) -> Option<Knobs> {
@@ -344,6 +347,8 @@ struct Corruption {
     /// ... or a complete assignment produced by forged witness generation
     assign: Option<Assignment<F>>,
     desc: Value,
+    /// always kept by the sub-sampling and always met by the external prover
+    must: bool,
 }
 
 struct Built<C: GenericConfig<D, F = F>> {
@@ -386,7 +391,7 @@ fn build<C: GenericConfig<D, F = F>>(s: &Scenario, config: plonky2::plonk::circu
         let i = b.add_virtual_target();
         let o = b.add_lookup_from_index(i, tidx[t]);
         // the public-input hash needs Poseidon rows, which do not fit the narrow row
-        if s.cfg.width != "narrow" {
+        if s.cfg.width != "narrow" && s.pis.unwrap_or(true) {
             b.register_public_input(o);
         }
         ins[t].push(i);
@@ -568,20 +573,29 @@ fn run_one<C: GenericConfig<D, F = F>>(s: &Scenario, selftest: bool, max_cor: us
     // is not run, every other generator is (so whatever depends on the looked-up output -- the
     // public-input hash rows -- is consistent with the forged value); padding slots and multiplicity
     // wires are taken from the honest assignment.  Only the lookup is violated.
-    let forge = |t: usize, k: usize, new_in: u64, new_out: u64| -> Option<Assignment<F>> {
+    let forge_many = |pins: &[(usize, usize, u64, u64)]| -> Option<Assignment<F>> {
         let mut w = PartitionWitness::new(nw, degree, rep);
         for t2 in 0..nt {
             for (k2, e) in s.tables[t2].lookups.iter().enumerate() {
-                let v = if (t2, k2) == (t, k) { fc(new_in) } else { F::from_canonical_u16(s.tables[t2].pairs[*e].0) };
+                let v = match pins.iter().find(|p| (p.0, p.1) == (t2, k2)) {
+                    Some(p) => fc(p.2),
+                    None => F::from_canonical_u16(s.tables[t2].pairs[*e].0),
+                };
                 w.set_target(built.ins[t2][k2], v).ok()?;
             }
         }
-        w.set_target(built.outs[t][k], fc(new_out)).ok()?;
-        let (row, slot) = lu_cell(t, k);
-        let pinned = Target::wire(row, LookupGate::wire_ith_looking_inp(slot));
+        let mut pinned: Vec<Target> = vec![];
+        for p in pins {
+            w.set_target(built.outs[p.0][p.1], fc(p.3)).ok()?;
+            let (row, slot) = lu_cell(p.0, p.1);
+            pinned.push(Target::wire(row, LookupGate::wire_ith_looking_inp(slot)));
+        }
         let gens = &prover.generators;
-        let mut expired: Vec<bool> = gens.iter().map(|g| g.0.id() == "LookupGenerator" && g.0.watch_list() == vec![pinned]).collect();
-        if expired.iter().filter(|x| **x).count() != 1 {
+        let mut expired: Vec<bool> = gens
+            .iter()
+            .map(|g| g.0.id() == "LookupGenerator" && { let wl = g.0.watch_list(); wl.len() == 1 && pinned.contains(&wl[0]) })
+            .collect();
+        if expired.iter().filter(|x| **x).count() != pins.len() {
             return None;
         }
         let mut buffer = GeneratedValues::empty();
@@ -625,11 +639,12 @@ fn run_one<C: GenericConfig<D, F = F>>(s: &Scenario, selftest: bool, max_cor: us
         }
         Some(a)
     };
+    let forge = |t: usize, k: usize, new_in: u64, new_out: u64| forge_many(&[(t, k, new_in, new_out)]);
     let in_table = |t: usize, i: u64, o: u64| s.tables[t].pairs.iter().any(|p| p.0 as u64 == i && p.1 as u64 == o);
     let mut cors: Vec<Corruption> = vec![];
     for kind in &s.kinds {
         match kind.as_str() {
-            "none" => cors.push(Corruption { kind: kind.clone(), assign: None, edits: vec![], desc: json!({}) }),
+            "none" => cors.push(Corruption { must: false, kind: kind.clone(), assign: None, edits: vec![], desc: json!({}) }),
             "out_notin" | "out_other_entry" | "inp_notin" | "pair_other_table" | "lu_slot_only" => {
                 for t in 0..nt {
                     let tb = &s.tables[t];
@@ -645,18 +660,18 @@ fn run_one<C: GenericConfig<D, F = F>>(s: &Scenario, selftest: bool, max_cor: us
                             "out_notin" => {
                                 let cands = [outv + 1, 65536 + r.gen_range(0..1u64 << 40), 0, 65535, P - 1];
                                 if let Some(v) = cands.iter().find(|v| !in_table(t, inp, **v)) {
-                                    cors.push(Corruption { kind: kind.clone(), assign: forge(t, k, inp, *v), edits: vec![], desc: json!({"table": t, "lookup": k, "entry": e, "pair": [inp, v]}) });
+                                    cors.push(Corruption { must: k == 0, kind: kind.clone(), assign: forge(t, k, inp, *v), edits: vec![], desc: json!({"table": t, "lookup": k, "entry": e, "pair": [inp, v]}) });
                                 }
                             }
                             "out_other_entry" => {
                                 if let Some(p) = tb.pairs.iter().find(|p| !in_table(t, inp, p.1 as u64)) {
-                                    cors.push(Corruption { kind: kind.clone(), assign: forge(t, k, inp, p.1 as u64), edits: vec![], desc: json!({"table": t, "lookup": k, "entry": e, "pair": [inp, p.1]}) });
+                                    cors.push(Corruption { must: k == 0, kind: kind.clone(), assign: forge(t, k, inp, p.1 as u64), edits: vec![], desc: json!({"table": t, "lookup": k, "entry": e, "pair": [inp, p.1]}) });
                                 }
                             }
                             "inp_notin" => {
                                 let cands = [inp + 1, 65536 + r.gen_range(0..1u64 << 40), 0, 65535];
                                 if let Some(v) = cands.iter().find(|v| !in_table(t, **v, outv)) {
-                                    cors.push(Corruption { kind: kind.clone(), assign: forge(t, k, *v, outv), edits: vec![], desc: json!({"table": t, "lookup": k, "entry": e, "pair": [v, outv]}) });
+                                    cors.push(Corruption { must: false, kind: kind.clone(), assign: forge(t, k, *v, outv), edits: vec![], desc: json!({"table": t, "lookup": k, "entry": e, "pair": [v, outv]}) });
                                 }
                             }
                             "pair_other_table" => {
@@ -673,7 +688,7 @@ fn run_one<C: GenericConfig<D, F = F>>(s: &Scenario, selftest: bool, max_cor: us
                                     }
                                 }
                                 if let Some((t2, p, shared)) = best {
-                                    cors.push(Corruption { kind: kind.clone(), assign: forge(t, k, p.0 as u64, p.1 as u64), edits: vec![],
+                                    cors.push(Corruption { must: k == 0, kind: kind.clone(), assign: forge(t, k, p.0 as u64, p.1 as u64), edits: vec![],
                                         desc: json!({"table": t, "lookup": k, "entry": e, "pair": [p.0, p.1], "from_table": t2, "input_shared": shared}) });
                                 }
                             }
@@ -682,7 +697,7 @@ fn run_one<C: GenericConfig<D, F = F>>(s: &Scenario, selftest: bool, max_cor: us
                                 let (row, slot) = lu_cell(t, k);
                                 let v = outv + 1 + r.gen_range(0..1000u64);
                                 if !in_table(t, inp, v) {
-                                    cors.push(Corruption { kind: kind.clone(), assign: None, edits: vec![(row * nw + 2 * slot + 1, fc(v))],
+                                    cors.push(Corruption { must: false, kind: kind.clone(), assign: None, edits: vec![(row * nw + 2 * slot + 1, fc(v))],
                                         desc: json!({"table": t, "lookup": k, "row": row, "slot": slot, "pair": [inp, v]}) });
                                 }
                             }
@@ -702,14 +717,60 @@ fn run_one<C: GenericConfig<D, F = F>>(s: &Scenario, selftest: bool, max_cor: us
                         if kind == "table_cell" {
                             let col = 3 * slot + r.gen_range(0..2usize);
                             let x = row * nw + col;
-                            cors.push(Corruption { kind: kind.clone(), assign: None, edits: vec![(x, a0.values[x] + F::ONE)],
+                            cors.push(Corruption { must: t == 0 && e == 0, kind: kind.clone(), assign: None, edits: vec![(x, a0.values[x] + F::ONE)],
                                 desc: json!({"table": t, "entry": e, "row": row, "col": col}) });
                         } else {
                             let x = row * nw + 3 * slot + 2;
                             let nv = if a0.values[x] == F::ZERO || r.gen_bool(0.5) { a0.values[x] + F::ONE } else { a0.values[x] - F::ONE };
-                            cors.push(Corruption { kind: kind.clone(), assign: None, edits: vec![(x, nv)], desc: json!({"table": t, "entry": e, "row": row, "col": 3 * slot + 2}) });
+                            cors.push(Corruption { must: false, kind: kind.clone(), assign: None, edits: vec![(x, nv)], desc: json!({"table": t, "entry": e, "row": row, "col": 3 * slot + 2}) });
                         }
                     }
+                }
+            }
+            "table_cell_unused" => {
+                // the output cell of an entry that no lookup uses (multiplicity 0): only the RE check stands against it
+                for t in 0..nt {
+                    let tb = &s.tables[t];
+                    let used: std::collections::BTreeSet<usize> = tb.lookups.iter().copied().collect();
+                    let pad = (l_slots - tb.lookups.len() % l_slots) % l_slots;
+                    if let Some(e) = (0..tb.pairs.len()).rev().find(|e| !used.contains(e) && !(*e == 0 && pad > 0)) {
+                        let (row, slot) = lut_cell(t, e);
+                        let x = row * nw + 3 * slot + 1;
+                        cors.push(Corruption { must: t == 0, kind: kind.clone(), assign: None, edits: vec![(x, a0.values[x] + F::ONE)],
+                            desc: json!({"table": t, "entry": e, "row": row, "col": 3 * slot + 1, "mult": a0.values[x + 1].to_canonical_u64()}) });
+                    }
+                }
+            }
+            "table_and_lookup" => {
+                // a used entry and every lookup of it carry the same wrong output: Sum = LDC still holds, only the RE check
+                // (table rows = declared table) stands against it
+                for t in 0..nt {
+                    if t != 0 && t != nt - 1 {
+                        continue;
+                    }
+                    let tb = &s.tables[t];
+                    let pad = (l_slots - tb.lookups.len() % l_slots) % l_slots;
+                    let mut by_entry: std::collections::BTreeMap<usize, Vec<usize>> = Default::default();
+                    for (k, e) in tb.lookups.iter().enumerate() {
+                        by_entry.entry(*e).or_default().push(k);
+                    }
+                    // the entry with the fewest lookups (entry 0 only if nothing else is used: its padding slots follow)
+                    let Some((e, ks)) = by_entry.iter().min_by_key(|(e, ks)| (**e == 0 && pad > 0, ks.len())) else { continue };
+                    if ks.len() > 130 {
+                        continue;
+                    }
+                    let (inp, outv) = (tb.pairs[*e].0 as u64, tb.pairs[*e].1 as u64);
+                    let Some(v) = [outv + 1, 65535, 0, 70000].into_iter().find(|v| !in_table(t, inp, *v)) else { continue };
+                    let pins: Vec<(usize, usize, u64, u64)> = ks.iter().map(|k| (t, *k, inp, v)).collect();
+                    let (row, slot) = lut_cell(t, *e);
+                    let mut edits = vec![(row * nw + 3 * slot + 1, fc(v))];
+                    if *e == 0 {
+                        for sl in l_slots - pad..l_slots {
+                            edits.push(((prover.lookup_rows[t].last_lut_gate - 1) * nw + 2 * sl + 1, fc(v)));
+                        }
+                    }
+                    cors.push(Corruption { must: t == 0, kind: kind.clone(), assign: forge_many(&pins), edits,
+                        desc: json!({"table": t, "entry": e, "lookups": ks.len(), "pair": [inp, v]}) });
                 }
             }
             "table_pad" | "lu_pad" => {
@@ -722,7 +783,7 @@ fn run_one<C: GenericConfig<D, F = F>>(s: &Scenario, selftest: bool, max_cor: us
                             let slot = s_slots - 1 - r.gen_range(0..tpad);
                             let col = 3 * slot + r.gen_range(0..2usize);
                             let x = w.last_lut_gate * nw + col;
-                            cors.push(Corruption { kind: kind.clone(), assign: None, edits: vec![(x, a0.values[x] + F::ONE)],
+                            cors.push(Corruption { must: false, kind: kind.clone(), assign: None, edits: vec![(x, a0.values[x] + F::ONE)],
                                 desc: json!({"table": t, "row": w.last_lut_gate, "col": col}) });
                         }
                     } else {
@@ -733,7 +794,7 @@ fn run_one<C: GenericConfig<D, F = F>>(s: &Scenario, selftest: bool, max_cor: us
                             let (i0, o0) = (tb.pairs[0].0 as u64, tb.pairs[0].1 as u64);
                             let cands = [o0 + 1, 65536 + r.gen_range(0..1u64 << 40)];
                             if let Some(v) = cands.iter().find(|v| !in_table(t, i0, **v)) {
-                                cors.push(Corruption { kind: kind.clone(), assign: None, edits: vec![(row * nw + 2 * slot + 1, fc(*v))],
+                                cors.push(Corruption { must: false, kind: kind.clone(), assign: None, edits: vec![(row * nw + 2 * slot + 1, fc(*v))],
                                     desc: json!({"table": t, "row": row, "slot": slot, "pair": [i0, v]}) });
                             }
                         }
@@ -744,7 +805,7 @@ fn run_one<C: GenericConfig<D, F = F>>(s: &Scenario, selftest: bool, max_cor: us
                 for t in 0..nt {
                     let row = prover.lookup_rows[t].first_lut_gate + 1;
                     for col in [0usize, r.gen_range(0..nw), nw - 1] {
-                        cors.push(Corruption { kind: kind.clone(), assign: None, edits: vec![(row * nw + col, fc(r.gen_range(1..P)))], desc: json!({"table": t, "row": row, "col": col}) });
+                        cors.push(Corruption { must: false, kind: kind.clone(), assign: None, edits: vec![(row * nw + col, fc(r.gen_range(1..P)))], desc: json!({"table": t, "row": row, "col": col}) });
                     }
                 }
             }
@@ -757,7 +818,7 @@ fn run_one<C: GenericConfig<D, F = F>>(s: &Scenario, selftest: bool, max_cor: us
         let mut rest: Vec<Corruption> = vec![];
         let mut seen = std::collections::BTreeSet::new();
         for c in cors {
-            if seen.insert(c.kind.clone()) {
+            if c.must || seen.insert(c.kind.clone()) {
                 keep.push(c)
             } else {
                 rest.push(c)
@@ -798,7 +859,8 @@ fn run_one<C: GenericConfig<D, F = F>>(s: &Scenario, selftest: bool, max_cor: us
             if !is_ext && st != "plain" && !knob_strats.is_empty() && knob_strats[ci % knob_strats.len()] != st {
                 continue;
             }
-            if is_ext && !(c.kind == "none" || ci % ext_every == 0 || ((bad_pairs > 0 || c.kind == "lu_pad") && ci % 2 == 0 && ext_every < 1000)) {
+            let must_ext = c.must && ext_every < 1000 && (c.kind.starts_with("table_") || c.desc["table"].as_u64() == Some(nt as u64 - 1));
+            if is_ext && !(c.kind == "none" || must_ext || ci % ext_every == 0 || ((bad_pairs > 0 || c.kind == "lu_pad") && ci % 2 == 0 && ext_every < 1000)) {
                 continue;
             }
             let res = if is_ext {
@@ -820,7 +882,7 @@ fn run_one<C: GenericConfig<D, F = F>>(s: &Scenario, selftest: bool, max_cor: us
                     if selftest && violated {
                         // self-test: pretend the verifier accepted a proof for a violating assignment
                         out.push(json!({"id": id, "kind": c.kind, "strategy": st, "violated": true, "bad_pairs": bad_pairs, "accepted": true,
-                            "stage": "selftest", "desc": c.desc, "binding_bits": cfg.binding_bits()}));
+                            "stage": "selftest", "desc": c.desc, "nt": nt, "binding_bits": cfg.binding_bits()}));
                         return out;
                     }
                     match guarded(|| data.verify(proof)) {
@@ -831,7 +893,7 @@ fn run_one<C: GenericConfig<D, F = F>>(s: &Scenario, selftest: bool, max_cor: us
                 }
             };
             out.push(json!({"id": id, "kind": c.kind, "strategy": st, "violated": violated, "bad_pairs": bad_pairs, "accepted": accepted,
-                "stage": stage, "detail": detail.chars().take(160).collect::<String>(), "desc": c.desc,
+                "stage": stage, "detail": detail.chars().take(160).collect::<String>(), "desc": c.desc, "nt": nt,
                 "oracle": {"gate": verdict.gate_violations.len(), "copy": verdict.copy_violations.len(), "lookup": verdict.lookup_violations.len()},
                 "edits": diff,
                 "binding_bits": cfg.binding_bits()}));
@@ -877,6 +939,7 @@ fn probe(args: &[String]) -> anyhow::Result<()> {
         strategies: vec![],
         ext_every: None,
         max_cor: None,
+        pis: None,
     };
     let built = build::<C>(&s, cfg.config()).map_err(|e| anyhow::anyhow!(e))?;
     let common = &built.data.common;
